@@ -421,6 +421,36 @@ def r14_4(ctx, repo):
     # per-individual helper substituted in (wherever the regimen is set,
     # caller or callee, it must precede the construction in the iteration)
     fn = copy.deepcopy(fn0)
+    # `acc.append(self._helper(x))` -> `t = self._helper(x); acc.append(t)`
+    # (the same program; the inliner substitutes helpers at statement level)
+
+    def hoist(stmts):
+        out = []
+        for s_ in stmts:
+            for attr in ('body', 'orelse', 'finalbody'):
+                sub = getattr(s_, attr, None)
+                if isinstance(sub, list) and sub and isinstance(
+                        sub[0], ast.stmt):
+                    setattr(s_, attr, hoist(sub))
+            if isinstance(s_, ast.Expr) and isinstance(s_.value, ast.Call):
+                for k_, a_ in enumerate(s_.value.args):
+                    if isinstance(a_, ast.Call) and isinstance(
+                            a_.func, ast.Attribute) and isinstance(
+                            a_.func.value, ast.Name) \
+                            and a_.func.value.id == 'self' \
+                            and a_.func.attr.startswith('_'):
+                        tmp = ast.Assign(
+                            targets=[ast.Name(id='__made', ctx=ast.Store())],
+                            value=a_)
+                        ast.copy_location(tmp, s_)
+                        s_.value.args[k_] = ast.copy_location(
+                            ast.Name(id='__made', ctx=ast.Load()), a_)
+                        out.append(tmp)
+                        break
+            out.append(s_)
+        return out
+    fn.body = hoist(fn.body)
+    ast.fix_missing_locations(fn)
     known = inline.load_baseline() - {'_create_log_likelihood'}
     inl = inline.Inliner(repo, known)
     inl.function(fn, CLS)
